@@ -68,36 +68,36 @@ type evalKey struct {
 type Engine struct {
 	stepSite  map[*ssa.Function][]ssa.CallInstruction
 	stepOther map[*ssa.Function]bool
-	recovers int // 0 unknown, 1 no repository function calls recover, 2 some does
-	P *load.Program
+	recovers  int // 0 unknown, 1 no repository function calls recover, 2 some does
+	P         *load.Program
 	// Atoms are repository functions that are not inlined: a call to one is
 	// a named call term (their own correctness is decided elsewhere).
 	Atoms map[*ssa.Function]bool
 
-	ctxs     map[ctxKey]*Ctx
-	unknown  map[*ssa.Function]*Ctx
-	memo     map[evalKey]*Term
-	inprog   map[evalKey]bool
-	branchCtx map[branchKey]*Ctx
-	errCtor   map[*ssa.Function]bool // repository functions that always return a non-nil error
-	foldPH   map[evalKey]*Term // accumulator placeholders while a loop-carried value is being unrolled
-	foldHits int
-	getters  map[*ssa.Function]string // nil-safe getter -> field name ("" = not a getter)
-	clones   map[*ssa.Function]int    // 1 = clone-shaped, -1 = not
-	elemops  map[*ssa.Function]string
-	noret    map[*ssa.Function]int
-	writes   map[writesKey][]*Write
+	ctxs        map[ctxKey]*Ctx
+	unknown     map[*ssa.Function]*Ctx
+	memo        map[evalKey]*Term
+	inprog      map[evalKey]bool
+	branchCtx   map[branchKey]*Ctx
+	errCtor     map[*ssa.Function]bool // repository functions that always return a non-nil error
+	foldPH      map[evalKey]*Term      // accumulator placeholders while a loop-carried value is being unrolled
+	foldHits    int
+	getters     map[*ssa.Function]string // nil-safe getter -> field name ("" = not a getter)
+	clones      map[*ssa.Function]int    // 1 = clone-shaped, -1 = not
+	elemops     map[*ssa.Function]string
+	noret       map[*ssa.Function]int
+	writes      map[writesKey][]*Write
 	allWrites   []*Write
 	writesBuilt bool
 	phase       int
 	deferCount  int
-	graphs   map[graphKey]*Graph
-	graphBusy map[graphKey]bool
-	active    []*Ctx // call strings of the loads being resolved (innermost last)
-	gatesAt   map[gatesAtKey][]*Alt
-	pathMemo map[pathKey][]*Alt
-	pathBusy map[pathKey]bool
-	Assume   map[string]bool // condition term string -> assumed truth value
+	graphs      map[graphKey]*Graph
+	graphBusy   map[graphKey]bool
+	active      []*Ctx // call strings of the loads being resolved (innermost last)
+	gatesAt     map[gatesAtKey][]*Alt
+	pathMemo    map[pathKey][]*Alt
+	pathBusy    map[pathKey]bool
+	Assume      map[string]bool // condition term string -> assumed truth value
 	// Trace, when set, receives diagnostics.
 	Trace func(format string, args ...any)
 	// Undecided collects constructs the engine could not model.
@@ -1219,7 +1219,9 @@ func (e *Engine) fieldOf(x *Term, name string, v ssa.Value, ctx *Ctx) *Term {
 // ---- recognised helper shapes ------------------------------------------------
 
 // getterField recognises the generated nil-safe getter shape
-//   func (x *T) GetF() R { if x != nil { return x.F }; return zero }
+//
+//	func (x *T) GetF() R { if x != nil { return x.F }; return zero }
+//
 // and returns "F".
 func (e *Engine) getterField(fn *ssa.Function) string {
 	if s, ok := e.getters[fn]; ok {
